@@ -33,7 +33,7 @@ def main():
     ap.add_argument("--check-jobs", type=int, default=4)
     ap.add_argument("--only")
     a = ap.parse_args()
-    dirs = sorted(d for d in glob.glob(os.path.join(ROOT, "seeded", "C*-[afg]*")) if os.path.exists(os.path.join(d, "patch.diff")))
+    dirs = sorted(d for d in glob.glob(os.path.join(ROOT, "seeded", "C*-[afgh]*")) if os.path.exists(os.path.join(d, "patch.diff")))
     if a.only:
         dirs = [d for d in dirs if os.path.basename(d) in a.only.split(",")]
     with ThreadPoolExecutor(max_workers=a.jobs) as ex:
